@@ -50,6 +50,7 @@ impl FromMeta for Callable {
     fn from_expr(expr: &syn::Expr) -> Result<Self> {
         match expr {
             syn::Expr::Path(_) | syn::Expr::Closure(_) => Ok(Self { call: expr.clone() }),
+            syn::Expr::Group(group) => Self::from_expr(&group.expr), // see FromMeta::from_expr
             _ => Err(Error::unexpected_expr_type(expr)),
         }
     }
